@@ -88,9 +88,26 @@ def huge_abort_case(rng, P, pad, where):
     return conn_case(B, 1, segs, scripts, [], [], rng.choice([0, 1])), ["abort", where, "own", "propagate" if where != "params" else "none", "follow1", "huge-abort"]
 
 
+def sync_abort_handoff_case(rng):
+    """parser API only: the AbortRequest arrives in the same chunk as Stdin data that is delivered into the stream buffer (so the
+    data is still buffered when parse() returns the abort error), the caller hands the parser over with into_request_parser() as it
+    stands (no set_stream(None), no compress()): the next request parser must skip the retained abort record and parse request 2"""
+    from fvgen import fmt_arg
+    rid = rng.choice([1, 7])
+    data = [rng.randrange(256) for _ in range(rng.choice([1, 5, 40]))]
+    ab = record(ABORT, rid, [rng.randrange(256) for _ in range(rng.choice([0, 8]))], rng.choice([0, 3]))
+    tail = [record(STDIN, rid, [1, 2], 0)] * rng.choice([0, 1])
+    w1 = flat(minimal_preamble(rid, 1, flags=1)) + record(STDIN, rid, data, rng.choice([0, 2])) + ab + flat(tail)
+    w2 = flat(minimal_preamble(2, 1, pairs=[(b"K", b"v")]))
+    ops = [[0, 10 ** 6]] + rng.choice([[], [[0, 0]], [[2, 1]]]) + [[6, 0, 2]]
+    return "str_run " + " ".join(fmt_arg(x) for x in [[rng.choice([256, 8192])], [3], w1 + w2] + ops), ["abort", "stream", "own", "sync-handoff", "follow1"]
+
+
 def gen_cases(rng, tier):
     for _ in range(1200 if tier == "quick" else 60000):
         yield one(rng)
+    for _ in range(12 if tier == "quick" else 400):
+        yield sync_abort_handoff_case(rng)
     for (P, pad) in ((65535, 255), (65281, 255), (65535, 1)):
         for where in ("params", "stream"):
             yield huge_abort_case(rng, P, pad, where)
@@ -101,13 +118,24 @@ def nontrivial(line, tags):
 
 
 def min_classes(tier):
-    return {"params": 150, "stream": 300, "foreign": 150, "follow1": 150, "follow2": 150, "past-eof": 100, "own-status": 100, "propagate": 150, "huge-abort": 6}
+    return {"params": 150, "stream": 300, "foreign": 150, "follow1": 150, "follow2": 150, "past-eof": 100, "own-status": 100, "propagate": 150, "huge-abort": 6, "sync-handoff": 10}
 
 
 def oracle(line, impl_line):
     o = parse_out(impl_line)
     if o is None or o[0] == [18446744073710440504]:
         return "connection task crashed or panicked"
+    if line.startswith("str_run "):
+        # class sync-handoff: after the abort error the plain hand-off must succeed and the next request parser must deliver request 2
+        rows = [r for r in o if r and r[0] == 7]
+        if not any(r and r[0] == 2 and r[1:2] == [3] for r in o) and not any(r and r[0] == 2 for r in o):
+            return "the stream parser did not report the AbortRequest"
+        if not rows or rows[0][1:3] != [0, 1]:
+            return "after a client abort the hand-off to the next request parser failed (%s): the connection is not usable" % (rows[0][1:] if rows else "no hand-off")
+        k = o.index(rows[0])
+        if o[k + 3][0] != 2:
+            return "the request parsed after the abort is not request 2"
+        return True
     cfg, rscript, wscript, segs, scripts = C07.decode_case(line)
     head, cons, wlog, inv, shut = C07.parse_events(o)
     if head[0] == 1:
